@@ -6,8 +6,9 @@
 //	new <id> cache <remotefs>                  fscache.NewMemCache(failing-remote decorator over <remotefs>);
 //	                                           <remotefs> must be a root memory filespace, else `err`
 //	commit <cache> [failat <k>] [order <s>]    -> ok | err | swallowed
-//	        Commit(); with `failat k` the k-th (0-based) remote call of this Commit that can report an error
-//	        (Remove, RemoveAll, MkdirAll, Writer) fails without effect.  `swallowed`: the failure was injected but
+//	        Commit(); with `failat k` the k-th (0-based) remote call of this Commit that can report an error fails:
+//	        Remove, RemoveAll, MkdirAll, Writer (without effect), and Write / Close on a writer the remote handed out
+//	        (a failing Write writes nothing, a failing Close is reported after the data was written).  `swallowed`: the failure was injected but
 //	        Commit returned nil.  `order` is for the model only (the order in which the Go maps are replayed is
 //	        not controllable here); every compared value is independent of it.
 //	classify <cache>                           -> -      (model side: reports defect classes on stderr)
@@ -105,7 +106,35 @@ func (f *failFS) Writer(p string) (filesystem.Writer, error) {
 	if f.hit() {
 		return nil, errInjected
 	}
-	return f.FS.Writer(p)
+	w, err := f.FS.Writer(p)
+	if err != nil {
+		return nil, err
+	}
+	return &failWriter{w: w, st: f}, nil
+}
+
+// failWriter: the Write and Close calls on a writer handed out by the remote are remote calls too.  A failing
+// Write writes nothing; a failing Close still closes the underlying writer (the memory file's lock must be
+// released) and reports the failure after the data was written.
+type failWriter struct {
+	w  filesystem.Writer
+	st *failFS
+}
+
+func (fw *failWriter) Write(b []byte) (int, error) {
+	if fw.st.hit() {
+		return 0, errInjected
+	}
+	return fw.w.Write(b)
+}
+
+func (fw *failWriter) Close() error {
+	fail := fw.st.hit()
+	err := fw.w.Close()
+	if fail {
+		return errInjected
+	}
+	return err
 }
 
 // the remaining mutating methods are never called on the remote by fscache; if a change of the code makes it
